@@ -298,3 +298,6 @@ func Truncate(s string, n int) string {
 	}
 	return s[:n] + "…"
 }
+
+// Sleep sleeps for the given number of seconds.
+func Sleep(seconds int) { time.Sleep(time.Duration(seconds) * time.Second) }
